@@ -15,6 +15,7 @@
   `Gen/C13Server.lean` (regenerated from the source on every run).
 -/
 import Upnp.Lemmas.C13Announce
+import Upnp.Lemmas.C13Loop
 import Upnp.Model.C13Consts
 namespace Upnp.C13
 
@@ -112,6 +113,32 @@ theorem sent_once_in_window {k : Consts} (hk : constsOk k = true) (t : DevTree) 
       sends.map (·.msg) = buildResponses t (r.st.getD []) ∧
       ∀ s ∈ sends, now ≤ s.time ∧ s.time ≤ now + windowMs r.mx :=
   answer_spec (ConstsOk.of_bool hk) t now r sel hr
+
+/-- **histories on the event loop**: run the responder as a state machine (`stepLoop`: a reception
+    either sends at once or leaves a `call_at` timer; a clock advance fires the due timers) over ANY
+    sequence of receptions and clock advances, then let `mxCap` more seconds pass: no timer is left,
+    the handler never raised, and the datagrams sent are — as a multiset of (time, destination,
+    message) — exactly those `answer` prescribes request by request (`outsFrom`), i.e. by
+    `sent_once_in_window` each prescribed answer exactly once, to its requester, inside its window;
+    nothing is lost, duplicated or misdirected by the interleaving -/
+theorem history_once {k : Consts} (hk : constsOk k = true) (t : DevTree) (evs : List Ev) :
+    let s := runLoop k t {} (evs ++ [.advance (k.mxCap * 1000)])
+    s.timers = [] ∧ s.raisedAt = [] ∧ s.log.Perm (outsFrom k t 0 evs) := by
+  have kk := ConstsOk.of_bool hk
+  have g0 : Good k ({} : Loop) := ⟨rfl, by intro tm h; simp at h⟩
+  obtain ⟨g1, p1⟩ := runLoop_spec kk t evs {} g0
+  obtain ⟨g2, p2, _⟩ := step_spec kk t _ g1 (.advance (k.mxCap * 1000))
+  have hf := flush_timers _ g1 t
+  simp only [runLoop, List.foldl_append, List.foldl_cons, List.foldl_nil]
+  refine ⟨hf, g2.noRaise, ?_⟩
+  have e : (stepLoop k t (runLoop k t {} evs) (.advance (k.mxCap * 1000))).all
+      = (stepLoop k t (runLoop k t {} evs) (.advance (k.mxCap * 1000))).log := by
+    simp [Loop.all, hf]
+  rw [e] at p2
+  refine p2.trans ?_
+  simp only [outsFrom, List.append_nil]
+  refine p1.trans ?_
+  simp [Loop.all]
 
 /-! ### the announcer -/
 
